@@ -43,6 +43,12 @@ let of_fitres (r : M.fitres) : v = L [of_q r.M.f_av; of_q r.M.f_sc; of_xnum r.M.
 let of_fitres3 (r : M.fitres3) : v =
   L [of_q r.M.g_av; of_q r.M.g_sc; of_xnum r.M.g_chi2; of_list of_q r.M.g_pred; of_nat r.M.g_best; of_list of_xnum r.M.g_grid; of_list of_q r.M.g_avs]
 
+let to_sedm (x : v) : M.sedm =
+  match x with
+  | L [n; nu; fl; er] -> { M.sd_name = to_z n; M.sd_nu = to_list to_q nu; M.sd_flux = to_list (to_list to_q) fl; M.sd_err = to_list (to_list to_q) er }
+  | _ -> raise (Bad "sedm")
+let of_crow (r : M.crow) : v = L [of_z r.M.cr_name; of_list of_q r.M.cr_flux; of_list of_q r.M.cr_var]
+
 let dispatch (op : string) (x : v) : v =
   match op, args x with
   | "get_av", [tab; vv; ts] ->
@@ -91,6 +97,14 @@ let dispatch (op : string) (x : v) : v =
   | "normalize", [filt] -> of_list (fun (_, y) -> of_q y) (M.normalize_m (to_list to_pt filt))
   | "conv", [flux; resp] -> of_q (M.conv_m (to_list to_q flux) (to_list to_q resp))
   | "conv_var", [err; resp] -> of_q (M.conv_var_m (to_list to_q err) (to_list to_q resp))
+  | "conv_dir1", [filt; norm; files; par] ->
+      let filt = to_list to_pt filt in
+      let filt = if to_bool norm then M.normalize_m filt else filt in
+      of_opt (of_list of_crow) (M.conv_dir1_m filt (to_list (to_pair to_z to_sedm) files) (to_list to_z par))
+  | "conv_dir2", [filt; norm; cube; par] ->
+      let filt = to_list to_pt filt in
+      let filt = if to_bool norm then M.normalize_m filt else filt in
+      of_opt (of_list of_crow) (M.conv_dir2_m filt (to_list to_sedm cube) (to_list to_z par))
   | "ndist", [l; step] -> of_z (M.ndist (to_q l) (to_q step))
   | "gridlog", [lo; hi; n] -> of_list of_q (M.gridlog_m (to_q lo) (to_q hi) (to_nat n))
   | "rank", [chi] -> of_list of_nat (M.rank_m (to_list to_xnum chi))
